@@ -21,6 +21,7 @@ LEVEL_TEXT = (
     "flavour, path roles per abstract native kind); whole-package scan of every constructor call that sets "
     "is_synthetic; call-graph reachability of a watch release for directories that leave the tree. Decides the "
     "translation's shape on every path, not the soundness of events over histories."
+    " Also: the record's own predicates and accessors decode the flag / field of the same name; the delay-queue rules that keep the two halves of a rename pairable are shared instances (C17/C08)."
 )
 
 
